@@ -132,6 +132,29 @@ def templates(tier="quick"):
             T.append(scenario("c14/depfile_MP_style_%s/%s" % (kind, name), "c14", [v], ops=ops, init=[b], depth=d,
                               tags=["spelling", name, "depfile"], twin_variants=[unspelled_twin(v)], files={"inc/g.h": "g\n"}))
 
+    # S7b a project that binds `builddir`: a target may be named relative to it, and that argument may need canonicalising
+    # after the two are joined (`../gen/x` is out/gen/x for builddir = out/obj)
+    v = Variant("v0", [Stmt("out/gen/x", ex=["s"]), Stmt("out/obj/lib", ex=["out/gen/x"]), Stmt("out/obj/sub/y", ex=["t"]),
+                       Stmt("exe", ex=["out/obj/lib", "out/obj/sub/y"])], header="builddir = out/obj")
+    bops = []
+    for srcn in ("s", "t"):
+        bops.append({"op": "edit", "path": srcn, "label": "edit " + srcn})
+    for o in ("out/gen/x", "out/obj/lib", "out/obj/sub/y"):
+        bops.append({"op": "rm", "path": o, "label": "rm " + o})
+    bb = len(bops)
+    bops.append(ninja_op(j=2))
+    for arg, canon in (("../gen/x", "out/gen/x"), ("..//gen/./x", "out/gen/x"), ("lib", "out/obj/lib"), ("./lib", "out/obj/lib"),
+                       ("sub/../lib", "out/obj/lib"), ("sub//y", "out/obj/sub/y"), ("../obj/sub/y", "out/obj/sub/y")):
+        op = ninja_op(j=2, targets=[arg], label="ninja -j2 " + arg)
+        op["canonical_args"] = ["-j2", "-k1", canon]
+        bops.append(op)
+        t = tool_op("readonly", ["-t", "query", arg])
+        t["tool_args"] = [arg]
+        t["canonical_args"] = ["-t", "query", canon]
+        t["label"] = "ninja -t query " + arg
+        bops.append(t)
+    T.append(scenario("c14/builddir_relative_arguments", "c14", [v], ops=bops, init=[bb], depth=d, tags=["spelling", "builddir"], builddir="out/obj"))
+
     # S8b a `default` line with several targets, the later ones spelled oddly
     for name, sp in sorted(SPELLINGS.items()):
         if name in ("trailing_dot", "trailing_slash"):
